@@ -165,6 +165,11 @@ var Features = []Feature{
 		t := d.Table("t")
 		t.Cols = append(t.Cols, Col{Name: "r", Type: "text", NotNull: true, Default: "\"it's\""})
 	}},
+	// a string default whose text looks like a constraint.
+	{Name: "col_k_default_mentions_check", Apply: func(d *DB) {
+		t := d.Table("t")
+		t.Cols = append(t.Cols, Col{Name: "k", Type: "text", Default: "'CHECK (x)'"})
+	}},
 	// numeric default spelled with an exponent; BLOB literal default.
 	{Name: "col_v_default_exponent", Apply: func(d *DB) {
 		t := d.Table("t")
